@@ -131,7 +131,7 @@ BUILTINS = {
     "enumerate", "isinstance", "print", "ord", "chr", "bin", "oct", "hex", "str",
     "type", "callable", "open", "set", "list", "tuple", "dict", "float", "repr",
     "const", "super", "urandom", "sorted", "sum", "any", "all", "zip", "reversed",
-    "divmod", "round", "iter", "next", "id", "hash", "format", "memoryview",
+    "divmod", "round", "iter", "next", "id", "hash", "format", "memoryview", "map", "filter", "pow", "frozenset", "OverflowError",
     "TypeError", "ValueError", "IndexError", "RuntimeError", "AttributeError",
     "NotImplementedError", "OSError", "KeyError", "Exception", "UnicodeError",
     "ImportError", "AssertionError", "StopIteration", "ZeroDivisionError",
